@@ -82,6 +82,9 @@ func propertyFailsL(prop, op, res, lean string) (why string) {
 			}
 		}
 	case "C02", "C16":
+		if base == "crt" {
+			return crtOracle(args, res)
+		}
 		if prop == "C16" {
 			if w := unitOracle(base, kind, args, res); w != "" {
 				return w
@@ -221,7 +224,7 @@ func propertyFailsL(prop, op, res, lean string) (why string) {
 			b := NewR(args).H()
 			if framesOK(b) {
 				allRaw := true
-				for off := 0; off < len(b); off += (int(b[off+2])<<8|int(b[off+3]) + 1) * 4 {
+				for off := 0; off < len(b); off += (int(b[off+2])<<8 | int(b[off+3]) + 1) * 4 {
 					if dispatchKind(b[off:]) != "RAW" {
 						allRaw = false
 						break
@@ -310,7 +313,7 @@ func propertyFailsL(prop, op, res, lean string) (why string) {
 					why := "decode-encode-decode is not idempotent"
 					// a REMB frame with mantissa 0 decodes to 2^(exp+23) (listed deviation); for exp >= 58 that value saturates on re-encoding
 					b := NewR(args).H()
-					for off := 0; off+20 <= len(b); off += (int(b[off+2])<<8|int(b[off+3]) + 1) * 4 {
+					for off := 0; off+20 <= len(b); off += (int(b[off+2])<<8 | int(b[off+3]) + 1) * 4 {
 						if b[off+1] == 206 && b[off]&31 == 15 && b[off+17]&3 == 0 && b[off+18] == 0 && b[off+19] == 0 {
 							why += " [remb-mantissa-zero]"
 							break
@@ -347,6 +350,28 @@ func propertyFailsL(prop, op, res, lean string) (why string) {
 			}
 		}
 	case "C11":
+		if base == "crt" {
+			return crtOracle(args, res)
+		}
+		if base == "cdst" && isOK {
+			qs := getPackets(NewR(args))
+			want := "ok 0"
+			if len(qs) > 0 {
+				want = dstLine(specDest(qs[0]))
+			}
+			if want != res {
+				return "compound DestinationSSRC is not the first member's"
+			}
+		}
+		if base == "csize" && isOK {
+			sum := 0
+			for _, p := range getPackets(NewR(args)) {
+				sum += p.MarshalSize()
+			}
+			if fmt.Sprintf("ok %d", sum) != res {
+				return "compound size is not the sum of its members"
+			}
+		}
 		ps := []rtcp.Packet(nil)
 		if base == "cval" || base == "ccname" || base == "cenc" || base == "csize" || base == "cdst" {
 			ps = getPackets(NewR(args))
@@ -479,6 +504,37 @@ func rtoOracle(kind, args, res string) string {
 	}
 	if want := canonTokens(p); want != kind+" "+got && want != got && want != kind {
 		return tagged("own decoder returns a different value", p, tagCCFB, tagREMB)
+	}
+	return ""
+}
+
+// crtOracle: CompoundPacket.Marshal then CompoundPacket.Unmarshal on a compound that the RFC 3550 grammar accepts and
+// whose members are well-formed: must succeed and give the members back (documented quantisations aside)
+func crtOracle(args, res string) string {
+	ps := getPackets(NewR(args))
+	if !specValidCompound(ps) || !allWF(ps) {
+		return ""
+	}
+	for _, p := range ps {
+		if deviationTag(p) != "" {
+			return "" // members running into a listed deviation are judged by the rt/rto lines
+		}
+	}
+	if !hasPrefix(res, "ok ") {
+		return "CompoundPacket.Marshal rejects a valid compound of well-formed packets"
+	}
+	parts := splitSemi(res[3:])
+	if len(parts) < 2 || parts[1] == "err" {
+		return "CompoundPacket.Unmarshal rejects the output of CompoundPacket.Marshal"
+	}
+	qs := getPackets(NewR(parts[1]))
+	if len(qs) != len(ps) {
+		return fmt.Sprintf("compound of %d packets comes back with %d", len(ps), len(qs))
+	}
+	for i := range ps {
+		if canonTokens(ps[i]) != packetTokens(qs[i]) {
+			return fmt.Sprintf("compound member %d (%s) decodes to a different value", i, kindName(ps[i]))
+		}
 	}
 	return ""
 }
